@@ -90,6 +90,42 @@ def futures_daily_sample():
     return None if abs(got - want) < 1e-9 else f'futures: long 2@100 (now 110), short 1@50 (now 55): sample {got}, wallet + unrealised PnL = {want}'
 
 
+def futures_backtest_samples():
+    """a leveraged long held over two day boundaries: every daily sample = wallet + unrealised PnL (computed from the candles)"""
+    from jesse import research
+    from jesse.strategies import Strategy
+    from jesse.store import store
+    n = 2 * 1440 + 60
+    rows = [[1609459200000 + i * 60000, 100 + 0.01 * i, 100 + 0.01 * (i + 1), 100 + 0.01 * (i + 1), 100 + 0.01 * i, 10] for i in range(n)]
+    ref = {}
+
+    class S(Strategy):
+        def should_long(self): return self.index == 0
+        def should_short(self): return False
+        def should_cancel_entry(self): return False
+        def go_long(self): self.buy = 10, self.price
+        def go_short(self): pass
+
+        def before(self):
+            ref['balances'] = store.app.daily_balance
+            ref.setdefault('closes', {})[len(store.app.daily_balance)] = self.price
+    cfg = {'starting_balance': 10000, 'fee': 0, 'type': 'futures', 'futures_leverage': 3, 'futures_leverage_mode': 'cross',
+           'exchange': 'Sandbox', 'warm_up_candles': 0}
+    research.backtest(cfg, [{'exchange': 'Sandbox', 'strategy': S, 'symbol': 'BTC-USDT', 'timeframe': '1m'}], [],
+                      {'Sandbox-BTC-USDT': {'exchange': 'Sandbox', 'symbol': 'BTC-USDT', 'candles': np.array(rows, dtype=float)}})
+    bal = list(ref.get('balances') or [])
+    entry = rows[0][2]
+    if len(bal) < 3:
+        return f'expected at least 3 equity samples, got {bal}'
+    for k in (1, 2):
+        # the k-th daily sample is taken right after minute index 1440*k was processed
+        price = rows[1440 * k][2]
+        want = 10000 + 10 * (price - entry)
+        if abs(bal[k] - want) > 1e-6:
+            return (f'futures x3, long 10 @ {entry} held over {k} day(s), price {price}: equity sample {bal[k]} but wallet + unrealised PnL = {want}')
+    return None
+
+
 def sampling_count():
     from jesse import research
     from jesse.strategies import Strategy
@@ -215,7 +251,7 @@ def replay(pl):
     if ob.startswith('daily.spot'):
         d = spot_daily_sample()
     elif ob.startswith('daily'):
-        d = futures_daily_sample() or spot_daily_sample()
+        d = futures_backtest_samples() or futures_daily_sample() or spot_daily_sample()
     else:
         d = sampling_count()
     return {'confirmed': bool(d), 'detail': d or 'equity samples agree with the account equity / expected count'}
